@@ -507,7 +507,8 @@ class MultiCrossBlockRepeat(Block):
             preamble = 0
         lists = cast(List[T], [])
         while start < num_trials - preamble:
-            lists.append(proc(start, end))
+            # A last, partial repetition ends with the sequence
+            lists.append(proc(start, min(end, num_trials)))
             start += step
             end += step
         return lists
